@@ -9,6 +9,8 @@ Oracle : an exact Fraction reference (harness/summation_exprs.py) for the sums a
 """
 import copy
 import math
+import os
+import sys
 import random
 import re
 from fractions import Fraction
@@ -203,7 +205,8 @@ def build_grader(cfg):
     kw = {'answers': dict(zip(FIELDS, cfg['answers']))}
     if cfg.get('positions') is not None:
         kw['input_positions'] = {k: v for k, v in zip(FIELDS, cfg['positions']) if v is not None or cfg.get('explicit_none')}
-    for k in ('even_odd', 'infty_val', 'infty_val_fact', 'samples', 'tolerance', 'variables', 'instructor_vars', 'failable_evals'):
+    for k in ('even_odd', 'infty_val', 'infty_val_fact', 'samples', 'tolerance', 'variables', 'instructor_vars', 'failable_evals',
+              'whitelist', 'blacklist', 'required_functions'):
         if k in cfg:
             kw[k] = cfg[k]
     if 'sample_from' in cfg:
@@ -947,7 +950,8 @@ def make_pool(rng, size):
     return pool
 
 
-def value_case(rng, key, a, b, eo, tier, infinite=None, pool=None):
+def value_case(rng, key, a, b, eo, tier, infinite=None, pool=None, cutoff=None):
+    """cutoff: a small infty_val (finite limits may lie far beyond it: the cutoff only replaces infinite limits)"""
     exact = rng.random() < 0.75 and infinite is None
     variables, cfg = pick_env(rng, exact)
     kind = rng.choice(['real', 'real', 'complex', 'vector'])
@@ -960,6 +964,13 @@ def value_case(rng, key, a, b, eo, tier, infinite=None, pool=None):
     if infinite is None:
         lo, hi = ('int', a), ('int', b)
         tree = pooled[3] if pooled else sx.gen_summand(rng, kind, variables, exact)
+        if cutoff is not None:
+            cfg['infty_val'] = cutoff
+            if rng.random() < 0.4:
+                # with a factorial in the summand the cutoff in force is infty_val_fact
+                cfg['user_fact'] = True
+                cfg['infty_val_fact'] = rng.choice([6, 10])
+                tree = ('mul', ('fact0',), tree)
     else:
         direction, fin = infinite
         cut = rng.choice(CUTS)
@@ -1377,6 +1388,17 @@ def oracle(run):
                   (', other limit ' + meta['mixed_with_infinity'] if meta.get('mixed_with_infinity') else ''), repr(r)[:200]))
         return fails
 
+    if kind == 'probe':
+        # the student's sum is the author's with the limits swapped: equal in value, no function the author does not use
+        fresh = meta.get('fresh')
+        if fresh is not None and canon((st, r)) != fresh:
+            fail('outcome depends on what was graded before: %r here, %r in a fresh interpreter (restriction %r)'
+                 % (canon((st, r)), fresh, meta.get('restriction')), history=meta.get('history'))
+        elif meta.get('function_free') and not (st == 'ret' and r.get('ok') is True):
+            fail('a sum equal to the author\'s (limits swapped, no function call) was not graded correct: %s (restriction %r)'
+                 % (repr(r)[:200], meta.get('restriction')), history=meta.get('history'))
+        return fails
+
     if kind == 'dummy-contrast':
         if not (st == 'ret' and r.get('ok') is True):
             fail('%s %r has no meaning of its own in the problem but was not accepted as the summation variable: %s'
@@ -1481,6 +1503,116 @@ def corpus():
     return c
 
 
+# ------------------------------------------------------------------------------------------------
+# perturb-then-probe: the verdict of a call must not depend on what the process graded before
+# ------------------------------------------------------------------------------------------------
+SHARED_SUMMANDS = ['n^2+x', '2*n+1', 'n*x-1', '(n+1)^2', 'n^2+sin(0)*x', '[n, x, 1]', 'abs(n)+x']
+FUNCTION_FREE = {'n^2+x', '2*n+1', 'n*x-1', '(n+1)^2', '[n, x, 1]'}
+INTEGER_CALLS = [('floor(7/2)', 3), ('ceil(5/2)', 3), ('abs(-2)', 2), ('max(1,2)', 2), ('h(2)', 4), ('sqrt(16)', 4),
+                 ('kronecker(1,1)+1', 2), ('min(5,3)', 3), ('floor(7/2)+h(1)', 4)]
+RESTRICTIONS = [{'whitelist': [None]}, {'whitelist': ['sin', 'cos']}, {'blacklist': ['floor', 'ceil', 'max', 'min', 'sqrt', 'kronecker']},
+                {'whitelist': ['abs', 'sin']}, {}]
+
+
+def history_specs(rng):
+    """(perturbers, probes): graders that share summand strings but differ in limits, options and function restrictions"""
+    perturbers, probes = [], []
+    for j, summand in enumerate(SHARED_SUMMANDS):
+        for r_, restr in enumerate(RESTRICTIONS):
+            lo, hi = rng.randint(-3, 2), rng.randint(3, 6)
+            cfg = dict({'answers': ['%d' % lo, '%d' % hi, summand, 'n'], 'variables': ['x'], 'samples': 1}, **restr)
+            probes.append({'key': 'probe:%d:%d' % (j, r_), 'kind': 'probe', 'cfg': cfg,
+                           'inputs': ['%d' % hi, '%d' % lo, summand, 'n'],
+                           'meta': {'restriction': restr, 'function_free': summand in FUNCTION_FREE}})
+    for j in range(60):
+        summand = rng.choice(SHARED_SUMMANDS)
+        call, val = rng.choice(INTEGER_CALLS)
+        lo = rng.randint(-3, 1)
+        cfg = {'answers': ['%d' % lo, '%d' % val, summand, 'n'], 'variables': ['x'], 'samples': rng.choice([1, 2]),
+               'user_functions': {'h': 'square'}}
+        r_ = rng.random()
+        if r_ < 0.5:
+            inputs = ['%d' % lo, call, summand, 'n']                      # a function call in a student limit
+        elif r_ < 0.65:
+            cfg['answers'][1] = call                                        # ... in an author limit
+            inputs = ['%d' % lo, '%d' % val, summand, 'n']
+        elif r_ < 0.75:
+            inputs = ['%d' % lo, call + '+1/2', summand, 'n']               # an error-raising submission
+        elif r_ < 0.85:
+            inputs = ['%d' % lo, call, summand + '+zz', 'n']                # undefined name
+        else:
+            cfg.update(even_odd=rng.choice([1, 2]), infty_val=rng.choice([5, 30]))
+            inputs = [call, '%d' % lo, summand.replace('n', 'k'), 'k'] if 'sin' not in summand and 'abs' not in summand else \
+                     [call, '%d' % lo, summand, 'n']
+        perturbers.append({'key': 'perturb:%d' % j, 'kind': 'perturber', 'cfg': cfg, 'inputs': inputs, 'meta': {}})
+    return perturbers, probes
+
+
+def canon(outcome):
+    st, r = outcome
+    if st == 'ret':
+        return ['ret', repr(r.get('ok')) if isinstance(r, dict) else repr(r)]
+    if st == 'exc':
+        return ['exc', type(r).__name__, str(r)[:200]]
+    return [st]
+
+
+def other_family_calls(rng):
+    """other classes of the library evaluating the same strings (they share the parser and its cache)"""
+    from mitxgraders import FormulaGrader
+    for summand in SHARED_SUMMANDS:
+        if summand.startswith('['):
+            continue
+        call, _ = rng.choice(INTEGER_CALLS[:4])
+        core.guarded(FormulaGrader(answers=summand, variables=['n', 'x']), None, '%s-%s+%s' % (call, call, summand))
+
+
+def probe_outcomes(probes):
+    """run in a FRESH interpreter (subprocess): the reference outcome of every probe"""
+    return [canon(run_case(p)['outcome']) for p in probes]
+
+
+def fresh_outcomes(probes):
+    import json
+    import subprocess
+    code = ('import sys, json; sys.path[:0] = [%r, %r]; from harness.props import c19; '
+            'print("@@" + json.dumps(c19.probe_outcomes(json.load(sys.stdin))))' % (core.REPO, core.VERIF))
+    try:
+        p_ = subprocess.run([sys.executable, '-B', '-c', code], input=json.dumps(probes), stdout=subprocess.PIPE,
+                            stderr=subprocess.PIPE, text=True, timeout=300, env=dict(os.environ, PYTHONHASHSEED='0'))
+        line = [l for l in p_.stdout.splitlines() if l.startswith('@@')]
+        return json.loads(line[-1][2:]) if line else None
+    except Exception as e:
+        core.log('C19: fresh interpreter unavailable: %r' % (e,))
+        return None
+
+
+def history_stream(ctx):
+    """probes, perturbers, other classes, probes again; every probe outcome is compared with a fresh interpreter's"""
+    rng = random.Random(104729 * ctx['seed'] + 5)
+    perturbers, probes = history_specs(rng)
+    fresh = fresh_outcomes(probes)
+    specs, outs = [], []
+
+    def run_probes(tag):
+        for j, pb in enumerate(probes):
+            spec = dict(pb, key='%s:%s' % (pb['key'], tag))
+            spec['meta'] = dict(pb['meta'], history=[{'cfg': x['cfg'], 'inputs': x['inputs'], 'key': x['key']} for x in perturbers]
+                                if tag == 'after' else [], fresh=fresh[j] if fresh else None)
+            o = process(spec)
+            if not pb['meta']['function_free']:
+                o['term'] = None        # post-evaluation function restrictions are not part of the model (C09)
+                o['unencodable'] = None
+            specs.append(spec)
+            outs.append(o)
+    run_probes('before')
+    for pt in perturbers:
+        run_case(pt)
+    other_family_calls(rng)
+    run_probes('after')
+    return specs, outs
+
+
 def generate(ctx):
     rng = random.Random(7919 * ctx['seed'] + 19)
     tier = ctx['tier']
@@ -1497,6 +1629,15 @@ def generate(ctx):
         direction = rng.choice([1, 1, -1, 0])
         fin = rng.randint(-3, 5) if direction >= 0 else rng.randint(-5, 3)
         specs.append(value_case(rng, 'inf:%d' % j, 0, 0, rng.choice([0, 0, 1, 2]), tier, infinite=(direction, fin)))
+    # finite limits beyond the cutoff in force (small infty_val / infty_val_fact): nothing may be clipped
+    for j in range(90 if tier == 'quick' else 400):
+        cutoff = rng.choice([5, 12, 30])
+        a = rng.choice([-1, 1]) * rng.randint(cutoff + 1, cutoff + 14)
+        b = rng.randint(-cutoff - 12, cutoff + 12) if rng.random() < 0.7 else rng.choice([-1, 1]) * rng.randint(cutoff + 1, cutoff + 14)
+        if rng.random() < 0.5:
+            a, b = b, a
+        specs.append(value_case(rng, 'beyond:%d:%d:%d:%d' % (j, cutoff, a, b), a, b, rng.choice([0, 0, 1, 2]), tier,
+                                pool=pool, cutoff=cutoff))
     specs += student_error_cases(rng, 160 if tier == 'quick' else 600)
     specs += name_kind_cases(rng, 2 if tier == 'quick' else 6)
     specs += mixed_limit_cases(rng)
@@ -1553,6 +1694,8 @@ def run(ctx):
                 'reached a verdict with at least one summand evaluation (distinct by configuration and inputs)')
     specs = generate(ctx)
     outs = run_all(specs)
+    h_specs, h_outs = history_stream(ctx)
+    specs, outs = specs + h_specs, outs + h_outs
     terms, metas = [], []
     # volume of the Coq replay: everything on the thorough tier, when an obligation is broken, or when the fingerprint of
     # some (not every: then no baseline has been recorded yet) mirrored function changed; otherwise every non-grid case
@@ -1560,7 +1703,7 @@ def run(ctx):
     changed = ctx.get('fingerprints_changed', [])
     full = ctx['tier'] == 'thorough' or bool(ctx.get('broken')) or (0 < len(changed) < len(MIRRORED))
     res.notes.append('Coq replay volume: %s' % ('full' if full else 'all non-grid cases + 1/3 of the grid'))
-    dist = {'value': 0, 'student-error': 0, 'author-error': 0, 'positions': 0, 'dummy-contrast': 0, 'unencodable': 0, 'oracle_boundary': 0,
+    dist = {'value': 0, 'student-error': 0, 'author-error': 0, 'positions': 0, 'dummy-contrast': 0, 'probe': 0, 'unencodable': 0, 'oracle_boundary': 0,
             'ref_errors': 0, 'verdict_true': 0, 'verdict_false': 0, 'raised': 0, 'terms_evaluated': 0}
     labels, errkinds = {}, {}
     for spec, o in zip(specs, outs):
@@ -1583,7 +1726,8 @@ def run(ctx):
             lab = spec['meta']['label']
             labels[lab] = labels.get(lab, 0) + 1
         if o['term'] is None:
-            dist['unencodable'] += 1
+            if o.get('unencodable'):
+                dist['unencodable'] += 1
             continue
         if not full and spec['key'].startswith('grid') and case_seed(spec['key']) % 3 != ctx['seed'] % 3:
             continue
@@ -1634,6 +1778,8 @@ def replay(w):
     if isinstance(cfg.get('positions'), list):
         cfg = dict(cfg)
     spec = {'key': w['key'], 'kind': w['kind'], 'cfg': cfg, 'inputs': w['inputs'], 'meta': meta}
+    for h in (w.get('history') or []):
+        run_case({'key': h['key'], 'kind': 'perturber', 'cfg': h['cfg'], 'inputs': h['inputs'], 'meta': {}})
     run_ = run_case(spec)
     fails = oracle(run_)
     st, r = run_['outcome']
